@@ -269,6 +269,37 @@ class Machine:
         p.mem[o][off:off + len(vals)] = vals
 
     # ------------------------------------------------------------------ constants
+    def const_struct(s, c):
+        """Path::<..> {{ f: v, .. }}  |  Path::<..>(v, ..)  ->  concatenated leaves, or None if c is not of that shape."""
+        i = 0
+        n = len(c)
+        while i < n:
+            m = re.match(r'[A-Za-z_][\w]*', c[i:])
+            if not m:
+                break
+            i += m.end()
+            if c[i:i + 3] == '::<':
+                i = mir.match_paren(c, i + 2) + 1
+            if c[i:i + 2] == '::':
+                i += 2
+                continue
+            break
+        if i == 0 or i >= n:
+            return None
+        rest = c[i:].strip()
+        if rest.startswith('{{') and rest.endswith('}}'):
+            inner = rest[2:-2].strip()
+            out = []
+            for x in mir.split_top(inner):
+                out += s.const(x.split(':', 1)[1].strip())
+            return out
+        if rest.startswith('(') and rest.endswith(')') and mir.match_paren(rest, 0) == len(rest) - 1:
+            out = []
+            for x in mir.split_top(rest[1:-1]):
+                out += s.const(x)
+            return out
+        return None
+
     def const(s, c, want=None):
         c = c.strip()
         m = re.match(r'^(-?[\d.]+(?:[eE][+-]?\d+)?)(f64|f32)$', c)
@@ -308,12 +339,11 @@ class Machine:
             return [math.inf if s.mode == 'CONC' else app('INF', 'Real')]
         if c in ('f64::NAN', 'NaNf64', 'NaN_f64'):
             return [math.nan if s.mode == 'CONC' else app('NAN', 'Real')]
-        m = re.match(r'^[\w:]+(?:::<.*?>)? \{\{? (.*) \}?\}$', c)
-        if m:
-            out = []
-            for x in mir.split_top(m.group(1).rstrip('}').strip()):
-                out += s.const(x.split(':', 1)[1].strip())
-            return out
+        if c == '[]':
+            return []
+        r = s.const_struct(c)
+        if r is not None:
+            return r
         if re.match(r'^[\w:]+::promoted\[\d+\]$', c) and c in s.fns:
             return s.eval_promoted(c)
         m = re.match(r'^\{0x([0-9a-f]+) as (.*)\}$', c)
